@@ -190,7 +190,7 @@ impl Cfg {
                 let ordered = ch.coin(1, 2);
                 if ordered {
                     c.v5 = false;
-                    c.w_req = *ch.choose(&[[1, 8, 0, 0, 0], [0, 1, 0, 0, 0], [1, 8, 0, 1, 0]]);
+                    c.w_req = *ch.choose(&[[1, 8, 0, 0, 0], [0, 1, 0, 0, 0], [1, 8, 0, 1, 0], [0, 6, 2, 0, 0]]);
                     c.order = AckOrder::InOrder;
                 } else {
                     c.w_req = *ch.choose(&[[2, 5, 3, 1, 0], [0, 1, 1, 0, 0]]);
